@@ -1067,7 +1067,8 @@ int KSI_AggregationHashChain_calculateShape(const KSI_AggregationHashChain *chn,
 	tmp = 1;
 
 	i = KSI_HashChainLinkList_length(chn->chain);
-	if (i > (sizeof(KSI_uint64_t) << 3) + 1) {
+	/* The pad bit and one bit per link must fit into the 64-bit shape. */
+	if (i >= (sizeof(KSI_uint64_t) << 3)) {
 		res = KSI_INVALID_STATE;
 		goto cleanup;
 	}
